@@ -284,6 +284,36 @@ def piece_cases(shard, of):
                    "cf": i % 5 == 0}
 
 
+def structured_text_cases(shard, of):
+    """Texts whose length is one of the structured sizes and which end in a complete or a cut-short sequence; and messages of
+    many fragments in which a character straddles the boundary between fragment k and k+1 for large k."""
+    from ..sizes import structured
+
+    tails = [b"", "\u20ac".encode(), b"\xe2\x82", b"\xf0\x9f\x98", b"\xc3"]
+    i = 0
+    for n in structured(70000):
+        for t in tails:
+            if n < len(t) + 1:
+                continue
+            i += 1
+            if i % of != shard:
+                continue
+            data = b"a" * (n - len(t)) + t
+            nfrag = (1, 2, 5)[i % 3]
+            k = max(1, len(data) // nfrag)
+            parts = [data[j * k:(j + 1) * k] for j in range(nfrag - 1)] + [data[(nfrag - 1) * k:]]
+            specs = [{"fin": int(j == nfrag - 1), "op": rm.TEXT if j == 0 else rm.CONT, "p": p_, "key": None} for j, p_ in enumerate(parts)]
+            yield {"frames": specs, "driver": ("data", "recv", "data_frame")[i % 3], "skip": False, "mut": "structured-length", "as_close": False, "text": data, "resume": False}
+    for k in (8, 15, 16, 17, 31, 32, 33, 63, 64, 65, 127, 128, 129):
+        for lead, rest in ((b"\xe2\x82", b"\xac"), (b"\xf0", b"\x9f\x98\x80"), (b"\xc3", b"\xa9"), (b"\xe2\x82", b"x")):
+            i += 1
+            if i % of != shard:
+                continue
+            parts = [b"ab"] * (k - 1) + [b"c" + lead, rest + b"d"] + [b"e"] * 3
+            specs = [{"fin": int(j == len(parts) - 1), "op": rm.TEXT if j == 0 else rm.CONT, "p": p_, "key": None} for j, p_ in enumerate(parts)]
+            yield {"frames": specs, "driver": ("data", "recv")[i % 2], "skip": False, "mut": "straddle-at-%d" % k, "as_close": False, "text": b"".join(parts), "resume": False}
+
+
 def close_reason_cases():
     """Close reasons of every length 0..123 (the control-frame limit) ending in each kind of complete / cut-short / stray sequence."""
     tails = [b"", "é".encode(), "€".encode(), "😀".encode(), b"\xc3", b"\xe2", b"\xe2\x82", b"\xf0", b"\xf0\x9f", b"\xf0\x9f\x98", b"\x80", b"\xed\xa0\x80", b"\xc0\xaf"]
@@ -304,6 +334,7 @@ def jobs(tier, seed):
     out.append({"name": "len4", "kind": "cases", "cases": [{"batch": "len4", "lead": a, "set": BOUNDARY} for a in range(0xF0, 0xF8)]})
     out.append({"name": "long-texts", "kind": "long"})
     out += [{"name": f"pieces-{k}", "kind": "pieces", "shard": k, "of": 4} for k in range(4)]
+    out += [{"name": f"structured-{k}", "kind": "structured", "shard": k, "of": 10} for k in range(10)]
     if tier == "quick":
         out.append({"name": "len3-boundary", "kind": "cases",
                     "cases": [{"batch": "len3", "lead": a, "thirds": BOUNDARY} for a in range(0xE0, 0xF0)]})
@@ -321,6 +352,10 @@ def run_job(job, coll):
         for c in long_text_cases():
             coll.check(c, run_case)
         for c in close_reason_cases():
+            coll.check(c, run_case)
+        return
+    if job["kind"] == "structured":
+        for c in structured_text_cases(job["shard"], job["of"]):
             coll.check(c, run_case)
         return
     if job["kind"] == "pieces":
